@@ -179,7 +179,8 @@ def r19_3(ctx):
         fi = model.func(path, name)
         rep.analysed(fi)
         idx = {}
-        # the solver constructor is whatever name the result of methods.select(...) is bound to
+        # the solver constructor is whatever name the result of methods.select(...) is bound to -- or the select call
+        # itself when its result is called at once, `methods.select(...)(sde=..., ...)`
         ctor_name = None
         for s in fi.node.body:
             if isinstance(s, ast.Assign) and isinstance(s.value, ast.Call) and astq.call_name(s.value).endswith("methods.select") \
@@ -188,10 +189,13 @@ def r19_3(ctx):
         for i, s in enumerate(fi.node.body):
             for c in [n for n in ast.walk(s) if isinstance(n, ast.Call)]:
                 nm = astq.call_name(c)
+                compound = isinstance(s, (ast.If, ast.For, ast.While, ast.Try))
+                if isinstance(c.func, ast.Call) and astq.call_name(c.func).endswith("methods.select") and "ctor" not in idx:
+                    idx["ctor"] = (i, compound)
                 for key, pat in (("check", "check_contract"), ("nograd", "assert_no_grad"), ("select", "methods.select"),
                                  ("ctor", ctor_name), ("integrate", "." + integ)):
                     if pat is not None and nm.endswith(pat) and key not in idx:
-                        idx[key] = (i, isinstance(s, (ast.If, ast.For, ast.While, ast.Try)))
+                        idx[key] = (i, compound)
         missing = [k for k in ("check", "nograd", "select", "ctor", "integrate") if k not in idx]
         construct = f"{fi.key}::R19.3::order"
         if missing:
